@@ -153,8 +153,17 @@ pub fn shrink(original: &Plan, class: &str, max_candidates: u32, max_time: Durat
         }
     }
     steps.push(format!("ddmin -> {} pkt faults, {} windows, {} api calls, {} injections", plan.pkt_faults.len(), plan.windows.len(), plan.api.len(), plan.injects.len()));
+    // payload sweeps: narrow the chunk to the one offending byte string
+    if let Mode::DecodeSweep { .. } = plan.mode {
+        if let Ok(out) = run_plan(&plan) {
+            if let Some(v) = out.violations.iter().find(|v| v.class == class) {
+                let k = v.frame as u64;
+                try_edit(&mut plan, class, &mut b, &mut steps, "single-payload", |p| p.mode = Mode::DecodeSweep { start: k, count: 1 });
+            }
+        }
+    }
     // 4. drop trailing spectator nodes
-    loop {
+    while !plan.nodes.is_empty() {
         let last = plan.nodes.len() - 1;
         if !matches!(plan.nodes[last].kind, NodeKind::Spectator { .. }) {
             break;
